@@ -55,16 +55,9 @@ def rettok(r):
     return tok({"claimed": r["claimed"], "outs": sorted(r["outs"]), "trunc": r["trunc"], "why": r["why"]})
 
 
-_LINES = {}
-
-
-def step_line(e):
-    """Script line of an edge (memoised: every edge is rendered once per pass and once per script it prefixes)."""
-    k = id(e)
-    v = _LINES.get(k)
-    if v is None or v[0] is not e:
-        v = _LINES[k] = (e, "expand %s %s = %s %s" % (ENVTOK[e["args"][0]], tok(e["args"][1]), rettok(e["ret"]), tok(e["post"])))
-    return v[1]
+def env_pairs(a0):
+    """args[0] of an edge as stored in the graph (the env token, read back as nested lists) -> [(name, value)]"""
+    return [("".join(map(chr, a0[k])), "".join(map(chr, a0[k + 1]))) for k in range(0, len(a0) - 1, 2)]
 
 
 def text_of(codes):
@@ -109,7 +102,7 @@ def keyfn(variant, e, f):
             d += "/NULL"
     cls = "-"
     if e:
-        cls = kinds(e["args"][1], ENVS[e["args"][0]])
+        cls = kinds(e["args"][1], env_pairs(e["args"][0]))
         if not e["ret"]["claimed"]:
             cls += " unclaimed:" + e["ret"]["why"]
         if e["pre"]:
@@ -131,7 +124,8 @@ def has_put(codes):
     return "%put" in "".join(chr(c) for c in codes).lower()
 
 
-GROUPS = [["esc", "dol1", "mix"], ["til", "dol2", "pg", "call"]]
+GROUPS = {"quick": [["esc", "dol1", "mix"], ["til", "dol2", "pg", "call"]],          # balanced by number of inputs per tier
+          "thorough": [["mix", "dol2", "call"], ["esc", "dol1", "til", "pg"]]}
 
 
 def split_cfgs(ctx, cfg):
@@ -144,7 +138,7 @@ def split_cfgs(ctx, cfg):
         raise Broken("no Sel line in " + cfg)
     sel = [w.strip().strip('"') for w in m.group(1).split(",")]
     out = []
-    for k, grp in enumerate(GROUPS):
+    for k, grp in enumerate(GROUPS[ctx.tier]):
         mine = [a for a in sel if a in grp]
         if not mine:
             continue
@@ -191,34 +185,42 @@ def classify(e):
 
 
 def tlc_edges(ctx, cfg):
-    """Exhaustive TLC runs with edge emission.  Unclaimed results of inputs that contain %put lead to the UNKNOWN node."""
+    """Exhaustive TLC runs with edge emission.  The edges are stored in the harness's own step format (args = environment token
+    and text, ret = the acceptable results), so a script line is the stored edge.  Unclaimed results of inputs that contain
+    %put lead to the UNKNOWN node."""
     from concurrent.futures import ThreadPoolExecutor
+    import threading
     g = Graph()
-    stats = {"claimed": 0, "unclaimed": {}, "alts": 0, "trunc": 0}
+    stats = {"claimed": 0, "unclaimed": {}, "alts": 0}
     acts = {}
-    pend = []
+    keys = set()
+    lock = threading.Lock()
 
     def on_edge(e):
-        pend.append(e)
+        r = e["ret"]
+        with lock:
+            if not r["claimed"]:
+                stats["unclaimed"][r["why"]] = stats["unclaimed"].get(r["why"], 0) + 1
+                if has_put(e["args"][1]):
+                    e["post"] = "UNKNOWN"
+            else:
+                stats["claimed"] += 1
+                if len(r["outs"]) > 1:
+                    stats["alts"] += 1
+                for kv in e["post"]:
+                    keys.add(tuple(kv[0]))
+            for a in classify(e):
+                acts[a] = acts.get(a, 0) + 1
+            e["args"] = [ENVTOK[e["args"][0]], e["args"][1]]
+            r["outs"] = sorted(r["outs"])
+            g.add(e)
 
     def one(pc):
-        return run_tlc("MC_Expand.tla", pc[0], ctx.rundir, on_edge=on_edge, workers=2, timeout=3000, coverage=False)
+        return run_tlc("MC_Expand.tla", pc[0], ctx.rundir, on_edge=on_edge, workers=2, timeout=3000, coverage=False,
+                       extra=["-maxSetSize", "4000000"])
     parts = split_cfgs(ctx, cfg)
     with ThreadPoolExecutor(len(parts)) as ex:
         results = list(ex.map(one, parts))
-    for e in pend:
-        r = e["ret"]
-        if not r["claimed"]:
-            stats["unclaimed"][r["why"]] = stats["unclaimed"].get(r["why"], 0) + 1
-            if has_put(e["args"][1]):
-                e["post"] = "UNKNOWN"
-        else:
-            stats["claimed"] += 1
-            if len(r["outs"]) > 1:
-                stats["alts"] += 1
-        for a in classify(e):
-            acts[a] = acts.get(a, 0) + 1
-        g.add(e)
     ok = True
     for (p, mine), res in zip(parts, results):
         ctx.add("states", res.distinct)
@@ -239,7 +241,46 @@ def tlc_edges(ctx, cfg):
         raise Broken("vacuity: no emitted edge of MC_Expand/%s goes through %s" % (cfg, unt))
     if g.n_edges() == 0 and ok:
         raise Broken("no edges emitted by MC_Expand/%s" % cfg)
-    return g, results[0]
+    return g, sorted(keys)
+
+
+def random_walks(ctx, g, lp, exe, variant, hargs, env, n, length):
+    """Histories sampled over edges already verified on the implementation (the shared planner's walks() is quadratic in the
+    out-degree of the empty store, which is several 10^5 here)."""
+    from vlib.graph import Script
+    rnd = random.Random(ctx.seed + 5)
+    moves, loops = {}, {}
+    for u, idxs in g.out.items():
+        ok = [i for i in idxs if i in lp.verified]
+        moves[u] = [i for i in ok if not g.is_loop(i)]
+        loops[u] = [i for i in ok if g.is_loop(i)]
+    init = tok([])
+    scripts = []
+    for k in range(n):
+        u, steps = init, []
+        for _ in range(length):
+            mv, lo = moves.get(u) or [], loops.get(u) or []
+            if not mv and not lo:
+                break
+            i = rnd.choice(mv) if (mv and (not lo or rnd.random() < 0.6)) else rnd.choice(lo)
+            steps.append(i)
+            u = g.post_key(i)
+        if steps:
+            scripts.append(Script(10 ** 7 + k, [], steps))
+    texts = [sc.text(g) for sc in scripts]
+    fails, _, ns, nt = run_scripts(exe, hargs, texts, ctx.rundir, jobs=4, env=env, tag=variant + "-walk")
+    by = {sc.sid: sc for sc in scripts}
+    for f in fails:
+        sc = by[f.sid]
+        st = min(f.step, len(sc.targets) - 1)
+        e = g.edict(sc.targets[st])
+        ctx.report("walk " + keyfn(variant, e, f), "%s: random walk over verified edges failed: %r at step %d" % (variant, f, st),
+                   {"variant": variant, "harness_args": hargs, "script_text": sc.text(g), "failure": repr(f), "detail": f.detail})
+    if scripts:
+        ctx.sample({"variant": variant, "walk": [g.line(i)[:160] for i in scripts[0].targets]})
+    ctx.add("traces_validated_against_impl", ns)
+    ctx.add("evaluations", nt)
+    ctx.cov.setdefault("walks", {})[variant] = {"walks": ns, "steps": nt, "failures": len(fails)}
 
 
 def limit_model(ctx):
@@ -258,15 +299,6 @@ def limit_model(ctx):
     if not res.ok:
         ctx.report("spec:Expand_limit.cfg", "TLC reports a violated property of the specification itself: %s" % (res.violation or "")[:600],
                    {"tlc": res.violation, "cfg": "Expand_limit.cfg"})
-
-
-def key_universe(g):
-    keys = set()
-    for _, _, e in g.edges:
-        if isinstance(e["post"], list):
-            for kv in e["post"]:
-                keys.add(tuple(kv[0]))
-    return sorted(keys)
 
 
 def ulog_compare(ctx, pa, pb):
@@ -527,18 +559,19 @@ def run(ctx):
     exe = harness(ctx)
     cfg = "Expand_quick.cfg" if ctx.tier == "quick" else "Expand_thorough.cfg"
     limit_model(ctx)
-    g, res = tlc_edges(ctx, cfg)
-    keys = key_universe(g)
+    g, keys = tlc_edges(ctx, cfg)
     keytok = tok([list(k) for k in keys])
     ctx.cov["store_key_universe"] = [text_of(k) for k in keys]
     inits = [tok([])]
-    walks = (200, 6) if ctx.tier == "quick" else (2000, 8)
+    nwalks, wlen = (300, 6) if ctx.tier == "quick" else (3000, 8)
     ulogs = []
     for name, pat, fill in (("pass-aa", "aa", 170), ("pass-55", "55", 85)):
         ul = os.path.join(ctx.rundir, "ulog-%s.txt" % name)
         ulogs.append(ul)
-        objcheck.replay_cover(ctx, g, inits, exe, name, [pat, keytok], keyfn, walks=walks, line=step_line,
-                              env={"ASAN_OPTIONS": asan_opts(fill), "XR_ULOG": ul}, jobs=4)
+        env = {"ASAN_OPTIONS": asan_opts(fill), "XR_ULOG": ul}
+        lp = objcheck.replay_cover(ctx, g, inits, exe, name, [pat, keytok], keyfn, walks=(0, 0), env=env, jobs=4)
+        if not ctx.violations:
+            random_walks(ctx, g, lp, exe, name, [pat, keytok], env, nwalks, wlen)
     ulog_compare(ctx, *ulogs)
     trace_validation(ctx, exe)
     ctx.cov["exhaustive"] = True
